@@ -10,9 +10,14 @@ structural takes fuel:
   * `C01_block_terminates`: with gas above an explicit closed-form bound in the weighted text length the block phase
     returns a result (no inner loop fuel and no nesting gas runs out), and more gas never changes it
     (`C01_block_gas_mono`, `C01_block_gas_irrelevant`);
-  * the Document-level and inline theorems listed in the evidence as they are added.
+  * the Document-level and inline theorems listed in the evidence;
+  * Props/C01_Renderers.lean (lemmas in Proofs/MdTotal.lean, Proofs/ContribTotal.lean): parse-and-render with the Markdown
+    renderer (every option set), the Jira renderer and the XWiki renderer returns a string for every text - no render-map
+    KeyError, no IndexError on empty containers, no TypeError on tables/links - and each renderer model raises on a TREE
+    exactly outside a decidable shape predicate that every parsed document satisfies.
 Units: `scan.*`, `block.buffer` and `doc` - the real tokenize_block / Document(text) / HtmlRenderer against the model
-(result or exception kind) on this run's random, mutated, malformed, truncated and deeply nested inputs.
+(result or exception kind) on this run's random, mutated, malformed, truncated and deeply nested inputs; `md.render`,
+`jira.render`, `xwiki.render` (+ `.tree`): the three renderer models against the real renderers, byte for byte.
 Exploration on the implementation: every bundled renderer configuration (boolean options, max_line_length) on random
 documents, mutations of the spec corpus, a malformed stream, exhaustive small-alphabet strings and line sequences,
 deep nesting up to depth 100; any exception other than the two documented refusals, and any parse+render over the
@@ -23,13 +28,15 @@ import itertools
 
 import block_units
 import common
+import contrib_units
 import doc_units
+import md_units
 import gen_docs
 import impl
 import scan_units
 
 ID = 'C01'
-EXTRA_MODULES = ['Mistletoe.Proofs.BlockTotal']
+EXTRA_MODULES = ['Mistletoe.Proofs.BlockTotal', 'Mistletoe.Proofs.MdTotal', 'Mistletoe.Proofs.ContribTotal']
 RULE = ('random documents, spec mutations/splices, malformed Unicode stream, exhaustive strings over {a,space,*,_,.,[,],`} '
         'and exhaustive line sequences over a 14-line vocabulary, deep nesting (quotes, lists, brackets, emphasis) to depth '
         '100; x the 11 bundled renderers x their boolean options x max_line_length in {None,0,1,2,40}; supplied as str, '
@@ -38,9 +45,13 @@ RULE = ('random documents, spec mutations/splices, malformed Unicode stream, exh
 TRUSTED = ['per-input wall-clock budget enforced with SIGALRM (10 s for <= 4 KB)', 'Pygments itself is exercised, not modelled']
 ASSUMPTIONS = ['admissible failures: RuntimeError from LaTeX inline code without a free \\\\verb delimiter; pygments ClassNotFound '
                'with fail_on_unsupported_language=True; RecursionError only beyond nesting depth 100']
-PARTIAL = ['the theorems cover the parser (block phase, token constructors, inline phase) and, through the total Lean '
-           'functions that model them, the Html/LaTeX/Ast renderers; the Markdown, Jira, XWiki and Pygments renderers are '
-           'not modelled: their totality is explored on the implementation',
+PARTIAL = ['the theorems cover the parser (block phase, token constructors, inline phase) and the Html, Markdown, Jira and XWiki '
+           'renderers (C01_html_total, C01_markdown_total, C01_jira_total, C01_xwiki_total_partial); LaTeX / Ast / Toc / '
+           'GithubWiki / MathJax renderers are total Lean functions by construction of their models (no raise site other than '
+           'the documented LaTeX refusal), their totality on the implementation is explored; Pygments is not modelled',
+           'C01_xwiki_total_partial: the parser model does not produce the two XWiki macro tokens, so for texts in which a macro '
+           'pattern matches the theorem speaks about another parse than the code\'s; those texts are compared on the tree '
+           'path (xwiki.render.tree) and explored on the implementation',
            'wall-clock termination and the interpreter recursion limit are runtime behaviour: measured on the '
            'implementation (depth <= 100), represented in the model by the gas bound']
 
@@ -177,6 +188,8 @@ def units(ctx):
             texts.append(nested(depth, kind))
     block_units.run(ctx, texts[::2])
     doc_units.run(ctx, texts)
+    md_units.run(ctx, texts[1::2])
+    contrib_units.run(ctx, texts)
 
 
 def explore(ctx, seeds):
